@@ -47,8 +47,9 @@ TOY = {
     "t17_13": (17, 6, 8, (0, 12), 13, 2),     # p = 1 mod 8: sign/verify only (shared model has no Tonelli-Shanks)
     "t17_23": (17, 3, 5, (1, 14), 23, 1),     # p = 1 mod 8: sign/verify only
     "t19_23": (19, 2, 9, (0, 16), 23, 1),
+    "t11_13": (11, 1, 6, (2, 4), 13, 1),      # n > p, small (brute-forced)
 }
-QUICK_TOY = ["t13_11", "t19_13c2", "t13_19", "t23_11c3", "t19_13n2"]
+QUICK_TOY = ["t13_11", "t19_13c2", "t11_13", "t23_11c3"]
 _CURVES: dict[str, Curve] = {}
 
 
@@ -157,11 +158,25 @@ def both(fn, secp: bool) -> str:
     return a if a == b else f"backend-divergence lib=[{a}] py=[{b}]"
 
 
+from btclib import exceptions as _E  # noqa: E402
+
+
+def _err_class(e: BaseException) -> str:
+    """common.err_class without its per-call imports (no script error can arise here)."""
+    if isinstance(e, _E.BTClibValueError):
+        return "value"
+    if isinstance(e, _E.BTClibTypeError):
+        return "type"
+    if isinstance(e, _E.BTClibRuntimeError):
+        return "runtime"
+    return common.err_class(e)
+
+
 def _call(fn, render) -> str:
     try:
         v = fn()
     except Exception as e:  # noqa: BLE001
-        c = common.err_class(e)
+        c = _err_class(e)
         return "err " + (c if not c.startswith("foreign") else "foreign")
     return render(v)
 
@@ -214,7 +229,7 @@ def _impl(line: str) -> str:  # noqa: C901, PLR0911, PLR0912
                 a = True
             except Exception as e:  # noqa: BLE001
                 a = False
-                if common.err_class(e) not in ("value", "runtime"):
+                if _err_class(e) not in ("value", "runtime"):
                     return "err foreign"
             return f"ok {b} {a}"
         return both(lambda: _call(f, lambda v: v), secp)
@@ -339,7 +354,7 @@ def _bms_read(rf: int, typ: str) -> str:
                     bms.assert_as_valid(_BMS_MSG, addrs[typ], sig)
                     acc = True
                 except Exception as e:  # noqa: BLE001
-                    if common.err_class(e) not in ("value", "runtime"):
+                    if _err_class(e) not in ("value", "runtime"):
                         return "err foreign"
                     acc = False
             finally:
@@ -367,7 +382,7 @@ def _o_chain_toy(w):
         try:
             sig, kid = dsa._sign_recoverable_(c, q, k, ls, ec)
         except Exception as e:  # noqa: BLE001
-            if common.err_class(e) != "runtime":
+            if _err_class(e) != "runtime":
                 return False, f"sign raised {type(e).__name__}: {e}"
             out.append("refused")
             continue
@@ -476,7 +491,7 @@ def _o_der_canonical(w):
     try:
         sig = dsa.Sig.parse(b, check_validity=False, strict=True)
     except Exception as e:  # noqa: BLE001
-        ok = common.err_class(e) == "value"
+        ok = _err_class(e) == "value"
         return ok, f"refused with {type(e).__name__}"
     try:
         lax = dsa.Sig.parse(b, check_validity=False, strict=False)
@@ -652,9 +667,76 @@ def der_cases(rng, count):
 
 
 # ------------------------------------------------------------------ run
+class _Batch:
+    """Starting the compiled driver costs ~0.5-1 s, so streams are not sent one by one: they are queued, and `flush`
+    evaluates the real code on every queued line in the main thread while a few driver processes (contiguous chunks of
+    the queue) run in background threads; each stream is then handed to ctx.correspond with the model answering from
+    its slice.  Purely a scheduling device: same lines, same outputs, same comparison."""
+
+    def __init__(self, ctx):
+        self.ctx = ctx
+        self.items = []
+
+    def stream(self, name, lines, **kw):
+        self.items.append([name, list(lines), kw, None])
+
+    def cases(self, name, cases, **kw):
+        self.items.append([name, [c[0] for c in cases], kw, list(cases)])
+
+    def flush(self, workers=4):
+        import threading
+        ctx, items = self.ctx, self.items
+        self.items = []
+        if not items:
+            return
+        orig = ctx.model
+        total = sum(len(it[1]) for it in items)
+        # contiguous groups of streams of roughly equal size
+        groups, cur, size = [], [], 0
+        for it in items:
+            cur.append(it)
+            size += len(it[1])
+            if size >= total / workers:
+                groups.append(cur)
+                cur, size = [], 0
+        if cur:
+            groups.append(cur)
+        results = {}
+
+        def work(gi, group):
+            lines = [ln for it in group for ln in it[1]]
+            try:
+                results[gi] = orig(EXE, lines)
+            except BaseException as e:  # noqa: BLE001
+                results[gi] = e
+        threads = [threading.Thread(target=work, args=(gi, g), daemon=True) for gi, g in enumerate(groups)]
+        for t in threads:
+            t.start()
+        for it in items:
+            if it[3] is None:
+                it[3] = [(ln, impl(ln)) for ln in it[1]]
+        for t in threads:
+            t.join()
+        try:
+            for gi, group in enumerate(groups):
+                outs = results[gi]
+                if isinstance(outs, BaseException):
+                    raise outs
+                pos = 0
+                for name, lines, kw, cases in group:
+                    sl = None if outs is None else outs[pos:pos + len(lines)]
+                    pos += len(lines)
+                    ctx.model = lambda exe, ls, sl=sl: sl
+                    ctx.correspond(name, EXE, cases, **kw)
+        finally:
+            ctx.model = orig
+
+
 def run(ctx):  # noqa: C901, PLR0912, PLR0915
     rng = ctx.rng
     shared.validate_hashes(ctx, EXE)
+    batch = _Batch(ctx)
+    ctx.stream = batch.stream
     thorough = ctx.tier == "thorough"
     toys = list(TOY) if thorough else QUICK_TOY
 
@@ -669,14 +751,14 @@ def run(ctx):  # noqa: C901, PLR0912, PLR0915
                  for ls in (0, 1)]
         ctx.stream(f"toy.sign[{name}]", lines)
         ctx.exhaustive_streams.append(f"toy.sign[{name}]")
-        cs = list(range(n)) if thorough else sorted({0, n - 1, rng.randrange(1, n - 1)})
+        cs = list(range(n)) if thorough else sorted({rng.choice([0, n - 1]), rng.randrange(1, n - 1)})
         for c in range(n):
             for q in range(1, n):
                 for k in (range(1, n) if (thorough or c in cs) else [rng.randrange(1, n)]):
                     ctx.check("chain.toy", {"curve": tok, "c": c, "q": q, "k": k})
         # verification: every (r, s) in 0..n+1, every key point (+ points that are no key), chosen challenges
         keys = T.keys + [(T.keys[0][0], (T.keys[0][1] + 1) % ec.p), (0, 0), (ec.p, 1)]
-        vlines, skipped = [], 0
+        vlines, skipped, vwit = [], 0, []
         for c in cs:
             m = hx(digest_for(c, ec))
             for Q in keys:
@@ -690,10 +772,17 @@ def run(ctx):  # noqa: C901, PLR0912, PLR0915
                                 ctx.check("sec1.toy", {"curve": tok, "c": c, "Q": list(Q), "r": r, "s": s})
                                 continue
                         vlines.append(f"ecdsa.verify_ {tok} sha256 {m} {Q[0]} {Q[1]} {r} {s}")
-                        if on:
-                            ctx.check("sec1.toy", {"curve": tok, "c": c, "Q": list(Q), "r": r, "s": s},
-                                      nontrivial=0 < r < n and 0 < s < n)
-        ctx.stream(f"toy.verify[{name}]", vlines, nontrivial=lambda ln, out: True)
+                        vwit.append((c, Q, r, s) if on else None)
+        # one evaluation of the real code per line serves the correspondence AND the SEC 1 oracle
+        vcases = [(ln, impl(ln)) for ln in vlines]
+        for (ln, out), wv in zip(vcases, vwit):
+            if wv is not None:
+                c, Q, r, s = wv
+                want = T.sec1_verify(c, Q, r, s)
+                ctx.oracle("sec1.toy", out == f"ok {want} {want}", f"verify_/assert_as_valid_ -> {out}; SEC1={want}",
+                           witness={"oracle": "sec1.toy", "witness": {"curve": tok, "c": c, "Q": list(Q), "r": r, "s": s}},
+                           nontrivial=0 < r < n and 0 < s < n)
+        batch.cases(f"toy.verify[{name}]", vcases, nontrivial=lambda ln, out: True)
         ctx.exhaustive_streams.append(f"toy.verify[{name}]")
         ctx.count("two_torsion_K_oracle_only", name, skipped)
         # the private core with both lower_s, on a slice
@@ -750,6 +839,9 @@ def run(ctx):  # noqa: C901, PLR0912, PLR0915
                 continue
             cl.append(f"ecdsa.crack_ {tok} sha256 {hx(digest_for(c1, ec))} {s1.r} {s1.s} {hx(digest_for(c2, ec))} {s2.r} {s2.s}")
         ctx.stream(f"toy.crack[{name}]", cl)
+        if thorough:
+            batch.flush()
+    batch.flush()
 
     # ---- catalogued curves: random + boundary --------------------------------------------------
     names = ["secp256k1", "secp256r1", "secp112r2", "secp160r1", "secp384r1", "secp521r1"]
@@ -758,7 +850,7 @@ def run(ctx):  # noqa: C901, PLR0912, PLR0915
     for name in names:
         ec = curve(name)
         sq = sqrt_ok(ec)
-        per = ctx.n(40 if name == "secp256k1" else 8, 300 if name == "secp256k1" else 60)
+        per = ctx.n(30 if name == "secp256k1" else 6, 300 if name == "secp256k1" else 50)
         lines = []
         for i in range(per):
             hf = rng.choice(list(HF)) if name != "secp256k1" or i % 2 else "sha256"
@@ -810,6 +902,9 @@ def run(ctx):  # noqa: C901, PLR0912, PLR0915
             except Exception:  # noqa: BLE001
                 pass
         ctx.stream(f"cat[{name}]", lines)
+        if thorough:
+            batch.flush()
+    batch.flush()
 
     # ---- DER -----------------------------------------------------------------------------------
     cases = der_cases(rng, ctx.n(3000))
@@ -852,3 +947,4 @@ def run(ctx):  # noqa: C901, PLR0912, PLR0915
     for _ in range(ctx.n(6, 60)):
         ctx.check("bms.chain", {"q": rng.randrange(1, secp256k1.n), "compressed": rng.random() < 0.6,
                                 "msg": common.rand_bytes(rng, rng.choice([0, 1, 20, 252, 253, 300])).hex()})
+    batch.flush()
